@@ -57,7 +57,7 @@ CLAIMS["C09"] = {
 CLAIMS["C18"] = {
     "technique": "rapid state machines: Bridge vs a model of the scripted impairments (hand-offs counted exactly), dpipe vs FIFO-per-direction model",
     "engine": "rapid-models",
-    "text": "Generated-input search: histories of writes in both directions interleaved with DropNextNWrites, ReorderNextNWrites (repeatedly, n=1..4), Drop, Reorder, Filter, Tick and Process, with truncating and non-truncating readers, also with readers that start at a drawn later step (every Tick before that must hand over nothing); the model applies the script to two queues and every hand-over is attributed by queue-length deltas, so the comparison 'reader received exactly the model's sequence' does not depend on timing; combinations the documentation leaves unspecified fall back to the weak oracle (no duplicate, nothing invented, intact). dpipe: FIFO per direction, one message per read, truncation, close of one end; a second machine fills a direction to its capacity of 1000 messages, parks further writers inside Write and closes either end: every write that reported success is read by the peer exactly once. Two free-running units run Bridge writers, readers and Tick/Process concurrently (exactly-once, per-direction order where no reordering is scripted) and Tick against ReorderNextNWrites. Exploration only.",
+    "text": "Generated-input search: histories of writes in both directions interleaved with DropNextNWrites, ReorderNextNWrites (repeatedly, n=1..4), Drop, Reorder, Filter, Tick and Process, with truncating and non-truncating readers, also with readers that start at a drawn later step (every Tick before that must hand over nothing); a reader must never see an error while both endpoints are open; the model applies the script to two queues and every hand-over is attributed by queue-length deltas, so the comparison 'reader received exactly the model's sequence' does not depend on timing; combinations the documentation leaves unspecified fall back to the weak oracle (no duplicate, nothing invented, intact). dpipe: FIFO per direction, one message per read, truncation, close of one end; a second machine fills a direction to its capacity of 1000 messages, parks further writers inside Write and closes either end: every write that reported success is read by the peer exactly once. Two free-running units run Bridge writers, readers and Tick/Process concurrently (exactly-once, per-direction order where no reordering is scripted) and Tick against ReorderNextNWrites. Exploration only.",
     "note": "Trusted: the model's order of script application (drop counter, reorder batch, filter) for the unambiguous cases; Bridge.SetLossChance and write deadlines are not exercised.",
     "design_ref": "DESIGN.md §3 C18",
 }
@@ -72,7 +72,7 @@ CLAIMS["C16"] = {
 CLAIMS["C02"] = {
     "technique": "rapid-generated outbound/inbound/advance histories against an RFC 4787 mapping model on a virtual clock (external addresses learned, then constrained); 1:1 mode table; port-space scenario; end-to-end regression",
     "engine": "vclock",
-    "text": "Generated-input search on the translator itself (in-package shim) with time.Now redirected to a virtual clock: all 9 mapping x filtering behaviours, 3 lifetimes, 1..4 internal endpoints, 1..5 remotes, advances of {0,1/3,2/3,1-e,1,1+e,3} lifetimes. Same key and live => same external address; new key => valid address unlike every live mapping's; idle > lifetime ends the mapping; inbound never prolongs it. 1:1 mode: paired IP rewritten both ways, port preserved. Look-alike address pools (5.6.7.8/5.6.7.80, ports 70/700/7000) and 4-byte/16-byte net.IP forms of one address are part of the domain. A scenario requests 16380..16400 mappings (more than the dynamic port range), with and without expiry. An end-to-end variant drives real routers on the real clock (lifetime 30 ms; outbound, inbound, pauses inside and past the lifetime) and decides reuse, expiry and 'inbound never prolongs' from write/receive timestamps: a datagram is translated between its write and its receipt, so no timing margin enters the verdict. Exploration only.",
+    "text": "Generated-input search on the translator itself (in-package shim) with time.Now redirected to a virtual clock: all 9 mapping x filtering behaviours, 3 lifetimes, 1..4 internal endpoints, 1..5 remotes, advances of {0,1/3,2/3,1-e,1,1+e,3} lifetimes. Same key and live => same external address; new key => valid address unlike every live mapping's; idle > lifetime ends the mapping; inbound never prolongs it. 1:1 mode: paired IP rewritten both ways, port preserved. Look-alike address pools (5.6.7.8/5.6.7.80, ports 70/700/7000) and 4-byte/16-byte net.IP forms of one address are part of the domain. A scenario requests 16380..16400 mappings (more than the dynamic port range), with and without expiry. An end-to-end variant drives real routers on the real clock (lifetime 30 ms; outbound, inbound, pauses inside and past the lifetime) and decides reuse, expiry and 'inbound never prolongs' from write/receive timestamps: a datagram is translated between its write and its receipt (for outbound datagrams: between leaving the LAN router's queue and leaving the WAN router's, noted by chunk filters; a third of the NAT routers hold datagrams back for a third or half of the lifetime), so no timing margin enters the verdict. Exploration only.",
     "note": "Trusted: the model (harness/vnat/model.go); an idle time of exactly one lifetime is 'either'; a translation that returns an error hands out nothing and is flagged only when a live mapping exists for the key (the end-to-end regression decides whether the router keeps forwarding).",
     "design_ref": "DESIGN.md §3 C02, Appendix A",
 }
@@ -119,14 +119,14 @@ CLAIMS["C17"] = {
 CLAIMS["C11"] = {
     "technique": "rapid state machine over a real loopback listener against a remote->connection/backlog model, marker datagrams for negative answers; concurrent bursts with isolation/order/duplicate oracle",
     "engine": "rapid-models",
-    "text": "Generated-input search on real sockets: backlog {1,2,4,128}, accept filter on/off, batch reading off/2/8, listener on 127.0.0.1, on the unspecified address of a dual-stack socket, on 0.0.0.0 or on [::1], 1..6 remotes (different ports, other addresses of 127/8 with one port, on the dual-stack listener IPv6 remotes with the port of an IPv4 one); steps send / accept / read / close / send-again / gated bursts (datagrams of several remotes, accepted, refused, overflowing, written while the read loop is held and dispatched from one batch); after every send a marker datagram from an always-accepted remote is read back, which proves (single-threaded FIFO read loop) that the earlier datagram has been dispatched, so 'created nothing' is decided without sleeping. Accept order and RemoteAddr, every Read (byte-identical next datagram of that remote), backlog overflow, filter refusal and reconnect-after-close (fresh object) are compared with the model; finally the backlog must hold nothing the model does not know. A concurrent test checks isolation, per-remote order, no duplicates and unique RemoteAddr under bursts. A controlled-schedule variant runs connection Close, per-remote senders and Accept as scheduler tasks over the yield-instrumented conn.go (a datagram arriving while the Close of its connection is under way) and then checks with real I/O that no two open connections share a remote and that a final datagram per remote is readable from exactly one. Exploration only.",
+    "text": "Generated-input search on real sockets: backlog {1,2,4,128}, accept filter on/off, batch reading off/2/8, listener on 127.0.0.1, on the unspecified address of a dual-stack socket, on 0.0.0.0 or on [::1], 1..6 remotes (different ports, other addresses of 127/8 with one port, on the dual-stack listener IPv6 remotes with the port of an IPv4 one); steps send / accept / read / close / send-again / gated bursts (datagrams of several remotes, accepted, refused, overflowing, written while the read loop is held and dispatched from one batch); after every send a marker datagram from an always-accepted remote is read back, which proves (single-threaded FIFO read loop) that the earlier datagram has been dispatched, so 'created nothing' is decided without sleeping; a marker that never comes out of its connection although the next one does was dropped by the listener. Accept order and RemoteAddr, every Read (byte-identical next datagram of that remote), backlog overflow, filter refusal and reconnect-after-close (fresh object) are compared with the model; finally the backlog must hold nothing the model does not know. A concurrent test checks isolation, per-remote order, no duplicates and unique RemoteAddr under bursts. A controlled-schedule variant runs connection Close, per-remote senders and Accept as scheduler tasks over the yield-instrumented conn.go (a datagram arriving while the Close of its connection is under way) and then checks with real I/O that no two open connections share a remote and that a final datagram per remote is readable from exactly one. Exploration only.",
     "note": "Assumes in-order, loss-free loopback delivery at the sequential test's volumes (one datagram in flight at a time); the concurrent test does not assert completeness. Datagrams above the receive MTU are not generated.",
     "design_ref": "DESIGN.md §3 C11",
 }
 CLAIMS["C12"] = {
     "technique": "rapid-drawn schedules over yield-instrumented udp/conn.go with real sockets (controlled scheduler + terminal quiescence rule), then real-I/O liveness probes",
     "engine": "sched",
-    "text": "Setup creates 0..3 accepted and 0..2 un-accepted connections with real datagrams; the controlled phase runs listener.Close, conn.Close (also twice, also while its remote sends again and Accept takes the successor), Accept, Read, Write queued behind the batch writer, a full accept backlog and late datagrams (also with the read loop parked inside a gated AcceptFilter while Close runs) as tasks in a rapid-drawn schedule over every lock/atomic/channel/WaitGroup operation of udp/conn.go and packetio/buffer.go; the listener's own goroutines run free and the run ends only when two whole-process snapshots show every goroutine parked. Oracle: no Close blocks, Accept fails after Close or its connection counts as accepted, reads of closed connections return; then with real I/O: everything closed => the port can be bound again at once (a failed bind counts only if /proc shows a socket of this process still holding the port) and no goroutine of the package remains; otherwise every accepted unclosed connection still sends and receives ('never earlier') and an open listener still accepts. Exploration of drawn schedules.",
+    "text": "Setup creates 0..3 accepted and 0..2 un-accepted connections with real datagrams; the controlled phase runs listener.Close, conn.Close (also twice, also while its remote sends again and Accept takes the successor), Accept, Read, Write queued behind the batch writer, a full accept backlog, the connection's own remote sending while its one Close runs, and late datagrams (also with the read loop parked inside a gated AcceptFilter while Close runs) as tasks in a rapid-drawn schedule over every lock/atomic/channel/WaitGroup operation of udp/conn.go and packetio/buffer.go; the listener's own goroutines run free and the run ends only when two whole-process snapshots show every goroutine parked. Oracle: no Close blocks, Accept fails after Close or its connection counts as accepted, reads of closed connections return; then with real I/O: everything closed => the port can be bound again at once (a failed bind counts only if /proc shows a socket of this process still holding the port) and no goroutine of the package remains; otherwise every accepted unclosed connection still sends and receives ('never earlier') and an open listener still accepts. Exploration of drawn schedules.",
     "note": "Trusted: goroutine wait states from runtime.Stack; netpoller wake-ups are not controlled; liveness waits of 3 s. The batch flush ticker goroutine is expected to exit within that margin.",
     "design_ref": "DESIGN.md §2.3, §3 C12",
 }
@@ -142,7 +142,7 @@ CLAIMS["C10"] = {
 CLAIMS["C19"] = {
     "technique": "rapid-generated concurrent client programs executed under the Go race detector (binary built with -race, GORACE=halt_on_error=1)",
     "engine": "race",
-    "text": "Generated client programs: a family of shared objects (Buffer; Deadline; dpipe pair; vnet router/hosts/sockets with ListenUDP, Dial, AddChunkFilter, Stop/Start; TokenBucketFilter and LossFilter under traffic with run-time Set(TBFRate|TBFMaxBurst); udp listener and connections on a real socket; parallel construction of independent networks; a LAN router behind a NAPT with outbound traffic to known and new remotes, inbound traffic to the learned external address, new sockets and mapping expiry), 2..6 goroutines with 1..8 drawn operations each, every program run twice for real. Oracle: the race detector; a report names two conflicting accesses unordered by happens-before in that run, independent of adverse timing. The program is printed before it runs; the replay command re-runs the last printed program 50 times. A second unit (in-package, also under the race detector) lets 2..5 goroutines enter one loss, token bucket or delay filter, or a chain of the three, at once through the NIC entry point while a setter reconfigures the token bucket. Exploration of the program space, no shrinking.",
+    "text": "Generated client programs: a family of shared objects (Buffer; Deadline; dpipe pair; vnet router/hosts/sockets with ListenUDP, Dial, AddChunkFilter, Stop/Start, AddNet of fresh hosts while the router forwards; TokenBucketFilter and LossFilter under traffic with run-time Set(TBFRate|TBFMaxBurst); udp listener and connections on a real socket; parallel construction of independent networks; a LAN router behind a NAPT with outbound traffic to known and new remotes, inbound traffic to the learned external address, new sockets and mapping expiry), 2..6 goroutines with 1..8 drawn operations each, every program run twice for real. Oracle: the race detector; a report names two conflicting accesses unordered by happens-before in that run, independent of adverse timing. The program is printed before it runs; the replay command re-runs the last printed program 50 times. A second unit (in-package, also under the race detector) lets 2..5 goroutines enter one loss, token bucket or delay filter, or a chain of the three, at once through the NIC entry point while a setter reconfigures the token bucket. Exploration of the program space, no shrinking.",
     "note": "Sees only races between accesses a generated program performs; API combinations outside the catalogue and instruction-level races the detector does not instrument (assembly) are not covered.",
     "design_ref": "DESIGN.md §3 C19",
 }
@@ -150,7 +150,7 @@ CLAIMS["C19"] = {
 CLAIMS["C01"] = {
     "technique": "rapid-generated topologies and traffic plans through the public API, per-router capture filters, hop-by-hop model walk (NAPT addresses learned and constrained), exact quiescence, then concurrent replay of established flows",
     "engine": "rapid-models",
-    "text": "Generated-input search: root router, up to 4 child routers nested to depth 3 with every NAPT mapping x filtering combination, static or automatic external addresses, or 1:1 NAT; hosts with automatic, single and double static addresses; specific, wildcard and loopback sockets, on two-address hosts also two sockets sharing one port; a rebind step closes and re-opens sockets. A sixth of the routers delay (MinDelay 200 us / 1 ms). Every router carries a pass-through capture filter. 5..40 sequential sends (other sockets, replies to observed translated sources, unbound ports, unroutable and loopback addresses, NAT external addresses; payloads 0..1500 incl. really empty; buffer overwritten after the write); after each the network is quiescent (all router loops parked, all queues empty) and the model of Appendix A decides: delivered iff admitted, exactly once, byte-identical, only to the socket bound to the destination, showing the translated source; then the established flows are replayed concurrently in bursts: per-flow order, no duplicates, no foreign socket, completeness. A bounded-queue variant keeps fewer than QueueSize-2 datagrams inside a delaying router and expects none to be dropped. A port-pressure variant uses up the NAPT's dynamic port range (16370..16400 filler mappings, lifetime 1 s) and lets an expired owner and the heir of its port keep exchanging requests and replies. A controlled-schedule variant re-starts the routers inside a scheduler session (every router loop becomes a task) and lets 2..3 sender tasks write on the established flows under rapid-drawn schedules over every lock/channel/select operation of router.go, net.go, conn.go, conn_map.go, chunk_queue.go and nat.go, with the same oracle at quiescence. Exploration only.",
+    "text": "Generated-input search: root router, up to 4 child routers nested to depth 3 with every NAPT mapping x filtering combination, static or automatic external addresses, or 1:1 NAT; hosts with automatic, single and double static addresses; specific, wildcard and loopback sockets, on two-address hosts also two sockets sharing one port; a rebind step closes and re-opens sockets. A sixth of the routers delay (MinDelay 200 us / 1 ms). Every router carries a pass-through capture filter. 5..40 sequential sends (other sockets, replies to observed translated sources, unbound ports, unroutable and loopback addresses, NAT external addresses; payloads 0..1500 incl. really empty; buffer overwritten after the write); after each the network is quiescent (all router loops parked, all queues empty) and the model of Appendix A decides: delivered iff admitted, exactly once, byte-identical, only to the socket bound to the destination, showing the translated source; then the established flows are replayed concurrently in bursts: per-flow order, no duplicates, no foreign socket, completeness. A bounded-queue variant keeps fewer than QueueSize-2 datagrams inside a delaying router and expects none to be dropped. A port-pressure variant uses up the NAPT's dynamic port range (16370..16400 filler mappings, lifetime 1 s) and lets an expired owner and the heir of its port keep exchanging requests and replies. A controlled-schedule variant re-starts the routers inside a scheduler session (every router loop becomes a task) and lets 2..3 sender tasks write on the established flows under rapid-drawn schedules over every lock/channel/select operation of router.go, net.go, conn.go, conn_map.go, chunk_queue.go and nat.go, with the same oracle at quiescence. A second controlled-schedule unit runs a root router, a NAPT LAN router and four hosts without any chunk filter (all other units observe their routers through one), end-to-end oracle only, half of its cases with a shaped schedule: the other senders first, the first datagram of an inbound flow, the router loops until the LAN queue is empty and 0..10 steps more, the rest of the flow. Exploration only.",
     "note": "Trusted: the model (harness/vnete2e/model.go, harness/vnat/model.go); goroutine states from runtime.Stack plus read-only shims for queue lengths (by reflection; an activity counter moved by the capture filters when they are unreadable, and always as a cross-check) decide quiescence. NAT lifetimes are 1 h (expiry is C02/C03).",
     "design_ref": "DESIGN.md §3 C01, Appendix A",
 }
